@@ -384,5 +384,43 @@ class CustomValues(Host):
         return file.raw_directives[0]
 
 
+class CustomValueKinds(CustomValues):
+    """the other kinds a custom directive's value list holds: dates and booleans (simplified to Python values by the
+    `values` view), accounts and amounts (kept as models)."""
+    name = 'custom.value-kinds'
+    types = ('Date', 'Bool', 'Acct', 'Amt')
+    inplace_types = ('Date', 'Bool')
+    views = {'raw_values': ('raw', ('Date', 'Bool', 'Acct', 'Amt')), 'values': ('str', ('Date', 'Bool', 'Acct', 'Amt'))}
+    skip_ops = ('remove', 'discard')
+
+    def item_text(self, ty, val, payload=None):
+        return {'Date': f'2001-01-0{val}', 'Bool': 'TRUE' if val == 1 else 'FALSE', 'Acct': f'Assets:V{val}', 'Amt': f'{val} USD'}[ty]
+
+    def make(self, ty, val, payload=None):
+        if ty == 'Date':
+            return models.Date.from_value(datetime.date(2001, 1, val))
+        if ty == 'Bool':
+            return models.Bool.from_value(val == 1)
+        if ty == 'Acct':
+            return models.Account.from_value(f'Assets:V{val}')
+        return models.Amount.from_value(decimal.Decimal(val), 'USD')
+
+    def value(self, ty, val):
+        if ty == 'Date':
+            return datetime.date(2001, 1, val)
+        if ty == 'Bool':
+            return val == 1
+        return self.make(ty, val)
+
+    def proj(self, node):
+        if isinstance(node, models.Date):
+            return 'Date', node.value.day
+        if isinstance(node, models.Bool):
+            return 'Bool', 1 if node.value else 2
+        if isinstance(node, models.Account):
+            return 'Acct', int(node.value[-1])
+        return 'Amt', int(node.raw_number.value)
+
+
 HOSTS: dict[str, Host] = {h.name: h for h in [Currencies(), TagsLinks(), Meta(), PostingMeta(), TxnMeta(), Directives(), Postings(),
-                                              CostComponents(), CustomValues()]}
+                                              CostComponents(), CustomValues(), CustomValueKinds()]}
